@@ -331,6 +331,18 @@ func Structured(thorough bool) []Lazy {
 			addLazy("jwk", fmt.Sprintf("jwk/%s/%d", kt, i), func() []byte { return []byte(text()) })
 		})
 	}
+	// well-formed keys of every type with their kty / crv values written in other letter case (some lookups fold case, others do not)
+	for _, kt := range keys.Types {
+		for _, member := range []string{"kty", "crv"} {
+			for vi, f := range []func(string) string{strings.ToUpper, strings.ToLower, strings.Title} {
+				m := keys.New(kt, 502).JWKMap()
+				if v, ok := m[member].(string); ok && f(v) != v {
+					m[member] = f(v)
+					add("jwk", fmt.Sprintf("jwk/%s/%s-case-%d", kt, member, vi), ops.Bytes(m))
+				}
+			}
+		}
+	}
 	// patches of each action and documents
 	patchTexts := []string{
 		`{"action":"replace","document":{"publicKeys":[` + ops.PubKeyJSON("k1", keys.New("P-256", 510), `["authentication"]`) + `],"services":[{"id":"s1","type":"T","serviceEndpoint":"https://s.example/"}]}}`,
